@@ -527,6 +527,71 @@ fn boundary_mutation(mods: &mut [(ItemPath, Module)], rng: &mut Rng) -> &'static
     }
 }
 
+/// give one attribute of a valid program an argument list of the wrong shape
+fn attribute_shape_mutation(mods: &mut [(ItemPath, Module)], rng: &mut Rng) {
+    const NAMES: &[&str] = &["size", "align", "address", "index", "singleton", "calling_convention", "base", "packed", "copyable", "cloneable", "defaultable", "default", "doc"];
+    let name = *rng.pick(NAMES);
+    let arg = |rng: &mut Rng| match rng.below(4) {
+        0 => Expr::IntLiteral(*rng.pick(BOUNDARY)),
+        1 => Expr::StringLiteral(rng.pick(&["", "cdecl", "thiscall", "x"]).to_string()),
+        _ => Expr::Ident(Ident(rng.pick(&["x", "cdecl", "u32"]).to_string())),
+    };
+    let shaped = match rng.below(6) {
+        0 => Attribute::Function(Ident(name.into()), vec![]),
+        1 => Attribute::Function(Ident(name.into()), vec![arg(rng), arg(rng)]),
+        2 => Attribute::Function(Ident(name.into()), vec![arg(rng)]),
+        3 => Attribute::Assign(Ident(name.into()), arg(rng)),
+        4 => Attribute::Ident(Ident(name.into())),
+        _ => Attribute::Function(Ident(name.into()), vec![arg(rng), arg(rng), arg(rng)]),
+    };
+    // collect every attribute list of the program and pick one
+    let mi = rng.below(mods.len());
+    let m = &mut mods[mi].1;
+    let mut lists: Vec<&mut Attributes> = vec![&mut m.attributes];
+    for (_, a) in m.extern_types.iter_mut() {
+        lists.push(a);
+    }
+    for ev in m.extern_values.iter_mut() {
+        lists.push(&mut ev.attributes);
+    }
+    for b in m.impls.iter_mut() {
+        lists.push(&mut b.attributes);
+        for f in b.functions.iter_mut() {
+            lists.push(&mut f.attributes);
+        }
+    }
+    for d in m.definitions.iter_mut() {
+        match &mut d.inner {
+            ItemDefinitionInner::Type(td) => {
+                lists.push(&mut td.attributes);
+                for st in td.statements.iter_mut() {
+                    lists.push(&mut st.attributes);
+                    if let TypeField::Vftable(fs) = &mut st.field {
+                        for f in fs.iter_mut() {
+                            lists.push(&mut f.attributes);
+                        }
+                    }
+                }
+            }
+            ItemDefinitionInner::Enum(ed) => {
+                lists.push(&mut ed.attributes);
+                for st in ed.statements.iter_mut() {
+                    lists.push(&mut st.attributes);
+                }
+            }
+        }
+    }
+    let k = rng.below(lists.len());
+    let list = &mut lists[k];
+    if rng.coin() {
+        list.0.retain(|a| match a {
+            Attribute::Function(i, _) | Attribute::Assign(i, _) | Attribute::Ident(i) => i.as_str() != name,
+        });
+    }
+    let pos = rng.below(list.0.len() + 1);
+    list.0.insert(pos, shaped);
+}
+
 fn recursion_case(rng: &mut Rng) -> String {
     match rng.below(8) {
         0 => "type A { a: A }".into(),
@@ -677,9 +742,16 @@ pub fn generate(seed: u64, n: usize) -> Vec<(String, Input)> {
                 s.extend_from_slice(&tb.as_bytes()[cb..]);
                 ("splice", Input::Dir { ptrw, files: vec![("s.pyxis".into(), s)], stray: None })
             }
-            _ => {
+            15 if i % 32 == 15 => {
                 let mods = valid_program(&mut rng, &format!("k{i}_"));
                 ("valid", Input::Dir { ptrw: 8, files: to_files(&mods, &mut rng), stray: None })
+            }
+            _ => {
+                let mut mods = valid_program(&mut rng, &format!("k{i}_"));
+                for _ in 0..rng.range(1, 2) {
+                    attribute_shape_mutation(&mut mods, &mut rng);
+                }
+                ("attribute-shape", Input::Dir { ptrw: 8, files: to_files(&mods, &mut rng), stray: None })
             }
         };
         out.push((kind.to_string(), input));
@@ -718,6 +790,11 @@ pub fn corpus() -> Vec<(String, Input)> {
         ("corpus/backend-unknown".into(), t("backend nothing { prologue \"x\"; } type T { x: u32 }")),
         ("corpus/prologue-not-rust".into(), t("backend rust prologue \"this is not rust {{{\"; type T { x: u32 }")),
         ("corpus/use-self".into(), t("use c; use c::T; type T { x: u32 }")),
+        ("corpus/calling-convention-no-args".into(), t("type T { x: u32 } impl T { #[address(1), calling_convention()] fn f(&self); }")),
+        ("corpus/index-no-args".into(), t("type T { vftable { #[index()] fn f(&self); } }")),
+        ("corpus/size-string".into(), t("#[size(\"4\")] type T { x: u32 }")),
+        ("corpus/raw-ident-clash-rename".into(), t("type A { x: u32 } impl A { #[address(0x10)] pub fn r#fn(&self); } type B { y: u32 } impl B { #[address(0x20)] pub fn r#fn(&self); } type D { #[base] a: A, #[base] b: B }")),
+        ("corpus/two-impl-blocks".into(), t("type T { x: u32 } impl T { #[address(0x10)] pub fn a(&self); } impl T { #[address(0x20)] pub fn b(&self); }")),
         ("corpus/api-absolute-path".into(), Input::Api { ptrw: 8, ops: vec![ApiOp::AddFile { base: "in".into(), path: "/dev/shm/pvh-c12-corpus-abs.pyxis".into(), content: "type A { a: u8 }".into() }, ApiOp::BuildAndWrite { out: "out".into(), out_is_file: false }] }),
         ("corpus/api-empty-path".into(), Input::Api { ptrw: 8, ops: vec![ApiOp::AddModule { path: "".into(), text: "type A { a: u8 }".into() }, ApiOp::BuildAndWrite { out: "out".into(), out_is_file: false }] }),
         ("corpus/api-out-is-file".into(), Input::Api { ptrw: 8, ops: vec![ApiOp::AddModule { path: "m".into(), text: "type A { a: u8 }".into() }, ApiOp::BuildAndWrite { out: "out".into(), out_is_file: true }] }),
